@@ -161,3 +161,47 @@ Proof.
   - destruct (HF x Hi) as (b & e & _ & _ & _ & _ & _ & HP & _). now apply gapify_degap.
   - destruct (HB x Hi) as (l & _ & b & e & _ & _ & _ & _ & _ & _ & _ & HP & _). now apply gapify_degap.
 Qed.
+
+(* a "token word": concatenation of single-character atoms (letter, ".", class, negated class).  A string is matched iff it has
+   exactly one character per token, each matched by its token; in particular the length of a group is the number of tokens,
+   not the length of the pattern text *)
+Definition tok_ok (a : rx) : bool := match a with XChr _ | XDot | XCls _ _ => true | _ => false end.
+Fixpoint cat_of (a : rx) (l : list rx) : rx := match l with [] => a | b :: r => XCat a (cat_of b r) end.
+Definition tok_match (a : rx) (x : byte) : Prop :=
+  match a with
+  | XChr c => x = c
+  | XDot => x <> cnl
+  | XCls neg cs => has x cs = negb neg
+  | _ => False
+  end.
+Lemma tok_lang a t : tok_ok a = true -> (lang a t <-> exists x, t = [x] /\ tok_match a x).
+Proof.
+  destruct a; try discriminate; intros _; cbn [tok_match]; split.
+  - intros H. apply lang_chr_inv in H. eauto.
+  - intros (x & -> & ->). constructor.
+  - intros H. inversion H; subst. eauto.
+  - intros (x & -> & H). now constructor.
+  - intros H. apply lang_cls_inv in H. exact H.
+  - intros (x & -> & H). now constructor.
+Qed.
+Lemma token_word_language l : forall a t, forallb tok_ok (a :: l) = true ->
+  (lang (cat_of a l) t <-> Forall2 tok_match (a :: l) t).
+Proof.
+  induction l as [|b r IH]; intros a t Hok; cbn [forallb] in Hok; apply andb_prop in Hok; destruct Hok as [Ha Hr]; cbn [cat_of].
+  - rewrite tok_lang by exact Ha. split.
+    + intros (x & -> & Hx). repeat constructor. exact Hx.
+    + intros H. inversion H as [|? ? ? ? Hx Hn]; subst. inversion Hn; subst. eauto.
+  - split.
+    + intros H. apply lang_cat_inv in H. destruct H as (t1 & t2 & -> & H1 & H2).
+      apply (tok_lang a t1 Ha) in H1. destruct H1 as (x & -> & Hx). constructor; [exact Hx|]. now apply IH.
+    + intros H. inversion H as [|? x ? t' Hx Hn]; subst. change (x :: t') with ([x] ++ t'). constructor.
+      * apply tok_lang; [exact Ha|eauto].
+      * now apply IH.
+Qed.
+Lemma token_word_length l a t : forallb tok_ok (a :: l) = true -> lang (cat_of a l) t -> length t = S (length l).
+Proof.
+  intros Hok H. apply (token_word_language l a t Hok) in H.
+  assert (HL : forall (xs : list rx) (ys : str), Forall2 tok_match xs ys -> length ys = length xs)
+    by (induction 1; cbn; congruence).
+  apply HL in H. exact H.
+Qed.
